@@ -20,4 +20,102 @@ def anchorizeAll (nt : NormTable) (hs : List Bytes) : List Bytes := anchorizeFro
 def anchorCand (id : Bytes) (uniq : Nat) : Bytes :=
   if uniq = 0 then id else id ++ [0x2D] ++ ofNatDec uniq
 
+/-! ## The code as it is: `Anchorizer(HashMap<String, usize>)`
+
+Since /repo commit 70a0ef9 the anchorizer keeps, with every anchor it has handed out, the first suffix
+that has not been tried for it yet when it is used as a base.  `anchorizeMemo` follows
+`Anchorizer::anchorize` statement by statement; Lemmas/AnchorMemo.lean proves that it returns the
+anchors of the set-based `anchorize` above (which stays the specification used by the renderer model). -/
+
+/-- The `HashMap<String, usize>`: an association list with at most one entry per key
+    (`insert` replaces in place). -/
+abbrev AnchorMap := List (Bytes × Nat)
+
+namespace AnchorMap
+
+/-- `HashMap::get(..).copied()`. -/
+def get : AnchorMap → Bytes → Option Nat
+  | [], _ => none
+  | (k', v) :: r, k => if k' = k then some v else get r k
+
+/-- `HashMap::contains_key`. -/
+def containsKey (m : AnchorMap) (k : Bytes) : Bool := (m.get k).isSome
+
+/-- `HashMap::insert`: the value of an existing key is overwritten. -/
+def insert : AnchorMap → Bytes → Nat → AnchorMap
+  | [], k, v => [(k, v)]
+  | (k', v') :: r, k, v => if k' = k then (k, v) :: r else (k', v') :: insert r k v
+
+/-- Sum of the stored counters (the potential of the amortised step count). -/
+def valSum (m : AnchorMap) : Nat := (m.map (·.2)).sum
+
+end AnchorMap
+
+/-- The `loop` of the memoised `anchorize`, started at the stored counter: the first of
+    `id-uniq, id-(uniq+1), ...` that is not a key, with the value of `uniq` at the `break`.
+    `fuel` bounds the search (`m.length + 1` always suffices, `memoLoop_ne_none`). -/
+def memoLoop (m : AnchorMap) (id : Bytes) : Nat → Nat → Option (Bytes × Nat)
+  | 0, _ => none
+  | fuel + 1, uniq =>
+    let anchor := anchorCand id uniq
+    if m.containsKey anchor then memoLoop m id fuel (uniq + 1) else some (anchor, uniq)
+
+/-- Number of `contains_key` probes (= loop iterations) of `memoLoop`. -/
+def memoLoopProbes (m : AnchorMap) (id : Bytes) : Nat → Nat → Nat
+  | 0, _ => 0
+  | fuel + 1, uniq =>
+    if m.containsKey (anchorCand id uniq) then 1 + memoLoopProbes m id fuel (uniq + 1) else 1
+
+/-- `Anchorizer::anchorize` as it is:
+    `let mut uniq = self.0.get(&id).copied().unwrap_or(0); let anchor = loop {..};`
+    `self.0.insert(anchor.clone(), 0); self.0.insert(id, uniq + 1); anchor`
+    (with `uniq = 0` the second insert overwrites the entry the first one made). -/
+def anchorizeMemo (nt : NormTable) (m : AnchorMap) (header : Bytes) : Bytes × AnchorMap :=
+  let id := nt.norm header
+  let uniq0 := (m.get id).getD 0
+  match memoLoop m id (m.length + 1) uniq0 with
+  | some (anchor, uniq) => (anchor, (m.insert anchor 0).insert id (uniq + 1))
+  | none => (id, m)   -- unreachable (memoLoop_ne_none)
+
+/-- Probes one call of the memoised `anchorize` makes. -/
+def anchorizeMemoProbes (nt : NormTable) (m : AnchorMap) (header : Bytes) : Nat :=
+  memoLoopProbes m (nt.norm header) (m.length + 1) ((m.get (nt.norm header)).getD 0)
+
+/-- The anchors issued for `hs` in order, starting from the map `m`. -/
+def anchorizeMemoFrom (nt : NormTable) : AnchorMap → List Bytes → List Bytes
+  | _, [] => []
+  | m, h :: hs =>
+    let r := anchorizeMemo nt m h
+    r.1 :: anchorizeMemoFrom nt r.2 hs
+
+/-- The map after `hs`. -/
+def memoStateFrom (nt : NormTable) : AnchorMap → List Bytes → AnchorMap
+  | m, [] => m
+  | m, h :: hs => memoStateFrom nt (anchorizeMemo nt m h).2 hs
+
+/-- Probes made for `hs` altogether. -/
+def memoProbesFrom (nt : NormTable) : AnchorMap → List Bytes → Nat
+  | _, [] => 0
+  | m, h :: hs => anchorizeMemoProbes nt m h + memoProbesFrom nt (anchorizeMemo nt m h).2 hs
+
+/-- One fresh `Anchorizer` (the code as it is) applied to `hs` in order. -/
+def anchorizeMemoAll (nt : NormTable) (hs : List Bytes) : List Bytes := anchorizeMemoFrom nt [] hs
+
+def memoProbesAll (nt : NormTable) (hs : List Bytes) : Nat := memoProbesFrom nt [] hs
+
+/-! ### Probes of the set-based loop (the code before the repair) -/
+
+/-- Number of `contains` probes of `anchorLoop`. -/
+def anchorLoopProbes (issued : List Bytes) (id : Bytes) : Nat → Nat → Nat
+  | 0, _ => 0
+  | fuel + 1, uniq =>
+    if issued.contains (anchorCand id uniq) then 1 + anchorLoopProbes issued id fuel (uniq + 1) else 1
+
+def oldProbesFrom (nt : NormTable) : List Bytes → List Bytes → Nat
+  | _, [] => 0
+  | issued, h :: hs =>
+    anchorLoopProbes issued (nt.norm h) (issued.length + 1) 0 + oldProbesFrom nt (anchorize nt issued h).2 hs
+
+def oldProbesAll (nt : NormTable) (hs : List Bytes) : Nat := oldProbesFrom nt [] hs
+
 end Comrak
